@@ -13,6 +13,7 @@ struct Big : Harness {
     Api api = static_api();
     std::string family = "ctr";
     bool huge = false;
+    bool understands(const Program &p) override { return !p.empty() && p[0].name == "big"; }
     void configure(const std::map<std::string, std::string> &kv) override {
         if (kv.count("family")) family = kv.at("family");
         if (kv.count("huge")) huge = kv.at("huge") == "1";
